@@ -297,7 +297,7 @@ package motion
 //@   requires c.ResX() >= 0 && c.ResY() >= 0 && motionConf.FrameCompareGap >= 0 && motionConf.EdgePixels >= 0 && 2*motionConf.EdgePixels <= c.ResX() && 2*motionConf.EdgePixels <= c.ResY()
 //@   requires !isnil(recorder) && ref(recorder) != 0 && !isnil(snapshotRecorder) && ref(snapshotRecorder) != 0
 //@   requires ref(recorder) != ref(constantRecorder) && ref(recorder) != ref(snapshotRecorder) && (ref(constantRecorder) != 0 ==> ref(constantRecorder) != ref(snapshotRecorder))
-//@   requires !recorder.open && recorder.next == 0 && !snapshotRecorder.open && !constantRecorder.open
+//@   requires !recorder.open && recorder.next == 0 && !snapshotRecorder.open && (ref(constantRecorder) != 0 ==> !constantRecorder.open)
 //@   ensures fresh(result) && result.PInv() && result.snapTidy() && !result.StartSnapshot
 //@   ensures [C03] result.minFrames == recorderConf.MinSecs*c.FPS() && result.maxFrames == recorderConf.MaxSecs*c.FPS()
 //@   ensures [C02] result.frameLoop.size == recorderConf.PreviewSecs*c.FPS() + motionConf.TriggerFrames && result.frameLoop.n() == 0
@@ -342,7 +342,7 @@ package motion
 //@   ensures [C03] mp.recLen()
 //@   ensures [C04] mp.recRun()
 //@   ensures [C12,C17] mp.PInvC() && mp.PInvS()
-//@   ensures [C13] result == perr
+//@   check [C13] result == perr
 //@   ensures [C13] ncalls("parseFrame") == 1 && callarg("parseFrame", 1, 1) == rawFrame && callarg("parseFrame", 1, 2) == old(mp.frameLoop.frames[mp.frameLoop.currentIndex]) && callarg("parseFrame", 1, 3) == old(mp.motionDetector.start)
 //@   ensures [C13] result != nil ==> ncalls("process") == 0 && ncalls("processConstantRecorder") == 0 && ncalls("processSnapshot") == 0
 //@   ensures [C13] result != nil ==> mp.frameLoop.n() == old(mp.frameLoop.n()) && !mp.isRecording && !mp.recorder.open && (mp.constantRecording ==> !mp.constantRecorder.open)
